@@ -721,6 +721,79 @@ theorem gen_slice_wrap_spec {ι : Type} (ops : Gen.InfoOps ι) (fuel : Nat) (inf
   have := Bridge.seqSlice_wrap ops fuel info s a b (by rw [hA, hB]; exact hBA) (by omega)
     (by rw [hA, hB]; omega) (by rw [hA]; exact hf)
   rw [this, hA, hB, slice_wrap_neg_bytes s a b A B hA hB hB0 hBA hAL]
+/-! ### "except on source features after slicing" (finding F37, repaired in /repo e43d5f2)
+
+`asComplete` had no case for `Complemented`: the `source` feature of a reverse-complemented record
+(`complement(1..L)`) kept the markers `Slice` puts on the ends it cuts off. -/
+
+/-- some contiguous leaf of the location carries a partial marker (harness `anyPartial`) -/
+def anyPartial (l : Loc) : Bool :=
+  l.leaves.any fun u => match u with
+    | .ranged _ _ p5 p3 => p5 || p3
+    | _ => false
+
+mutual
+theorem leaves_asComplete_noPartial : ∀ l : Loc, ∀ u ∈ (asComplete l).leaves,
+    (match u with | .ranged _ _ p5 p3 => p5 || p3 | _ => false) = false
+  | .ranged s e _ _ => by
+    intro u hu; simp only [asComplete, leaves, List.mem_singleton] at hu; subst hu; rfl
+  | .joined ls => by
+    intro u hu; simp only [asComplete, leaves] at hu; exact leavesList_asComplete_noPartial ls u hu
+  | .ordered ls => by
+    intro u hu; simp only [asComplete, leaves] at hu; exact leavesList_asComplete_noPartial ls u hu
+  | .compl l => by
+    intro u hu; simp only [asComplete, leaves] at hu; exact leaves_asComplete_noPartial l u hu
+  | .between _ => by
+    intro u hu; simp only [asComplete, leaves, List.mem_singleton] at hu; subst hu; rfl
+  | .point _ => by
+    intro u hu; simp only [asComplete, leaves, List.mem_singleton] at hu; subst hu; rfl
+  | .ambiguous _ _ => by
+    intro u hu; simp only [asComplete, leaves, List.mem_singleton] at hu; subst hu; rfl
+theorem leavesList_asComplete_noPartial : ∀ ls : List Loc, ∀ u ∈ leavesList (asCompleteList ls),
+    (match u with | .ranged _ _ p5 p3 => p5 || p3 | _ => false) = false
+  | [] => by intro u hu; simp only [asCompleteList, leavesList] at hu; cases hu
+  | l :: ls => by
+    intro u hu
+    simp only [asCompleteList, leavesList, List.mem_append] at hu
+    rcases hu with h | h
+    · exact leaves_asComplete_noPartial l u h
+    · exact leavesList_asComplete_noPartial ls u h
+end
+
+/-- `asComplete` leaves no partial marker anywhere: every kind, every nesting depth, either strand -/
+theorem asComplete_noPartial (l : Loc) : anyPartial (asComplete l) = false := by
+  unfold anyPartial
+  rw [List.any_eq_false]
+  intro u hu
+  simp only [leaves_asComplete_noPartial l u hu, Bool.false_eq_true, not_false_eq_true]
+
+/-- **a `source` feature never becomes (or stays) partial by slicing**: every `source` feature of a
+forward slice is marker-free — for every record, every window and every location kind, the
+complement strand included (the clause "except on source features after slicing"). -/
+theorem slice_source_complete (s : Seq) (a b : Int) (ha : 0 ≤ a) (hab : a ≤ b) :
+    ∀ g ∈ (s.slice a b).feats, g.key = "source" → anyPartial g.loc = false := by
+  intro g hg hk
+  rw [slice_feats_fwd s a b ha hab, List.mem_map] at hg
+  obtain ⟨f, _, rfl⟩ := hg
+  simp only at hk
+  simp only [hk, if_true]
+  exact asComplete_noPartial _
+
+/-- the reading of `asComplete` before repair e43d5f2 (no clause for a complement) -/
+def asCompleteOld : Loc → Loc
+  | .compl l => .compl l
+  | l => asComplete l
+
+/-- with the old reading the statement is false: `source complement(3..10)` cut to its first residue
+comes out as `complement(3..>3)` (finding F37; witness replayed on the real code every run) -/
+theorem slice_source_complete_old_refuted :
+    ¬ (∀ l : Loc, ∀ b L : Int, anyPartial (asCompleteOld ((l.expand b (b - L)).expand 0 0)) = false) := by
+  intro h
+  exact absurd (h (.compl (.ranged 2 10 false false)) 3 10) (by decide)
+
+-- non-vacuity: the source of a reverse-complemented record of ten residues, cut to [0,3)
+example : ((Seq.slice ⟨[⟨"source", .compl (.ranged 2 10 false false), []⟩], [97, 99, 103, 116, 97, 99, 103, 116, 97, 99]⟩ 0 3).feats.map
+    fun f => f.loc.beq (.compl (.ranged 2 3 false false))) = [true] := by decide
 
 -- non-vacuity: windows of a sequence of six residues
 example : Bridge.deleteOk (⟨[], [65, 67, 71, 84, 65, 67]⟩ : Seq).len 2 3 := by decide
